@@ -1480,3 +1480,33 @@ Proof.
   unfold vutf8_eval. rewrite negb_true_iff. rewrite <- utf8_valid_exact.
   destruct (utf8_valid v); split; intros H; try discriminate; try reflexivity; try congruence.
 Qed.
+
+(* ==================================================================================== *)
+(* captures over a non-empty prior state                                                 *)
+(* ==================================================================================== *)
+(* a group that did not participate is written as "": a stale text of an earlier capturing
+   evaluation never survives in TX.i for i < min(groups, 10) *)
+Lemma rx_captures_overwrite_stale idx v tx i :
+  (i < 10)%nat -> (i < ngroups idx)%nat -> (nth (2 * i) idx (-1) < 0)%Z ->
+  tx_get (store_captures true tx 0 (snd (rx_eval (Some idx) true v))) (itoa (N.of_nat i)) = Some [].
+Proof.
+  intros Hi Hg Hneg. rewrite rx_captures by exact Hi.
+  replace (i <? ngroups idx)%nat with true by (symmetry; apply Nat.ltb_lt; exact Hg).
+  unfold rx_group. replace (0 <=? nth (2 * i) idx (-1))%Z with false by (symmetry; apply Z.leb_gt; exact Hneg).
+  reflexivity.
+Qed.
+
+(* two capturing @rx evaluations in a row: what TX.i holds afterwards is decided by the second
+   one alone for every group index it has, and by the state after the first one otherwise *)
+Lemma rx_captures_sequence idx1 v1 idx2 v2 tx i :
+  (i < 10)%nat ->
+  let tx1 := store_captures true tx 0 (snd (rx_eval (Some idx1) true v1)) in
+  let tx2 := store_captures true tx1 0 (snd (rx_eval (Some idx2) true v2)) in
+  tx_get tx2 (itoa (N.of_nat i))
+  = if (i <? ngroups idx2)%nat then Some (rx_group idx2 v2 i)
+    else if (i <? ngroups idx1)%nat then Some (rx_group idx1 v1 i)
+    else tx_get tx (itoa (N.of_nat i)).
+Proof.
+  intros Hi tx1 tx2. unfold tx2. rewrite rx_captures by exact Hi.
+  destruct (i <? ngroups idx2)%nat; [reflexivity|]. unfold tx1. apply rx_captures. exact Hi.
+Qed.
